@@ -18,6 +18,20 @@ def builds_needed(tier):
     return ["rel"]
 
 
+# Own corpus re-run on other builds of the crate (mc/core.py: extra builds). Every observation is compared with the same model.
+def extra_builds(tier):
+    def vec(fname, i):
+        # the vector code is in the block functions: the graph shards (every partition of 4 blocks) of the digests that have one
+        n = specs(tier)[i][0]
+        return fname == "shard_graph" and ("sha256" in n or "sha224" in n or "blake2" in n)
+
+    def chk(fname, i):
+        # checked-arithmetic build: every lifecycle history of the tree shards
+        return fname == "shard_tree"
+    return [("relchk", chk), ("avx", vec), ("avx2", vec)]
+
+
+
 def bounds(tier):
     return {"tree_depth": "4 (5 for Poly1305, Hmac<Sha256>, legacy Sha3_256)" if tier == "thorough" else 3, "graph_bytes": "4 blocks", "graph_resets": 2, "objects": 2}
 
@@ -39,7 +53,7 @@ def specs(tier):
     out = []
     for k in (HM_ALL if tier == "thorough" else HM_QUICK):
         _, B, D = macs.kind_info(k)
-        for key in (pat(6, 0, 5), pat(6, 0, B + 9)):
+        for key in (pat(6, 0, 5), pat(6, 0, B), pat(6, 0, B + 9)):
             out.append(("hmac-%s-k%d" % (k, len(key)), "m", "hmac %s %s" % (k, H(key)), B, False, None, D, key,
                         (lambda kk: (lambda key, data: macs.hmac(kk, key, data)))(k)))
     for key in (pat(6, 0, 32), b"\xff" * 32):
